@@ -174,7 +174,7 @@ def _mk_scenario(name, tags, inherited_tags, steps, show_skipped, dry_run, in_ru
             "in_rule": in_rule, "tags": list(tags)}
 
 
-def _plan_items(items, inherited_tags, bg_steps, show_skipped, dry_run, in_rule, out):
+def _plan_items(items, inherited_tags, bg_steps, show_skipped, dry_run, in_rule, out, has_fbg=False):
     for it in items:
         if it["kind"] == "scenario":
             steps = [dict(s) for s in bg_steps] + [_sinfo(s) for s in it["steps"]]
@@ -193,7 +193,10 @@ def _plan_items(items, inherited_tags, bg_steps, show_skipped, dry_run, in_rule,
             shown = show_skipped or "skip" not in rtags
             out.append({"k": "rule", "name": it["name"], "shown": shown})
             own = [] if it.get("background") is None else [_sinfo(s) for s in it["background"]]
-            if it.get("background") is not None:
+            if it.get("background") is not None or has_fbg:
+                # a rule without Background under a feature with Background: the model gives the
+                # rule an empty default background (carrier of the inheritance); it is part of the
+                # model after the run, so it is announced/reported like a written one (no steps)
                 out.append({"k": "background", "steps": own, "shown": shown, "in_rule": True})
             _plan_items(it["items"], rtags, bg_steps + own, show_skipped, dry_run, True, out)
 
@@ -205,7 +208,8 @@ def build_plan(tree, show_skipped, dry_run):
     own = [] if tree.get("background") is None else [_sinfo(s) for s in tree["background"]]
     if tree.get("background") is not None:
         entries.append({"k": "background", "steps": own, "shown": shown, "in_rule": False})
-    _plan_items(tree["items"], ftags, own, show_skipped, dry_run, False, entries)
+    _plan_items(tree["items"], ftags, own, show_skipped, dry_run, False, entries,
+                has_fbg=tree.get("background") is not None)
     return {"filename": tree["filename"], "name": tree["name"], "tags": list(tree["tags"]),
             "shown": shown, "entries": entries}
 
@@ -857,6 +861,7 @@ def check_progress3(obs, plans, text):
 # =====================================================================================
 CONTRACTS = ("events", "json", "rb_structure", "rb_status", "rb_location", "plain", "progress")
 _CACHE = {}
+MAX_SHOWN = 5
 
 
 def _key(case):
@@ -900,9 +905,8 @@ def evaluate(case):
                     res["rb_structure"] += [tag + v for v in check_readback_structure(obs, plans, text)]
                     res["rb_status"] += [tag + v for v in check_readback_status(obs, plans, text)]
                     res["rb_location"] += [tag + v for v in check_readback_location(obs, plans, text)]
-                elif fmt in ("plain", "plain0"):
-                    res["plain"] += [tag + v for v in
-                                     check_plain(obs, plans, text, multiline and fmt == "plain", timings)]
+                elif fmt == "plain":
+                    res["plain"] += [tag + v for v in check_plain(obs, plans, text, multiline, timings)]
                 elif fmt == "progress2":
                     res["progress"] += [tag + v for v in check_progress2(obs, plans, text)]
                 elif fmt == "progress3":
@@ -910,7 +914,7 @@ def evaluate(case):
     out = {}
     for c in CONTRACTS:
         v = res[c]
-        out[c] = (not v, "" if not v else "%d violation(s): " % len(v) + " || ".join(v[:5]))
+        out[c] = (not v, "" if not v else "%d violation(s): " % len(v) + " || ".join(v[:MAX_SHOWN]))
     if len(_CACHE) > 200000:
         _CACHE.clear()
     _CACHE[key] = out
@@ -1009,7 +1013,7 @@ def seqs(alphabet, maxlen):
     return out
 
 
-SHAPES = ("flat", "fbg", "rule", "rbg", "fbg+rbg", "s+rbg", "outline")
+SHAPES = ("flat", "fbg", "rule", "rbg", "fbg+rbg", "fbg+rule", "s+rbg", "outline")
 
 
 def shape_tree(shape, combo, skip_at=None):
@@ -1025,6 +1029,8 @@ def shape_tree(shape, combo, skip_at=None):
         return F("F", [RU("R", scs, bg=["pass"])])
     if shape == "fbg+rbg":
         return F("F", [RU("R", scs, bg=["pass"])], bg=["pass"])
+    if shape == "fbg+rule":
+        return F("F", [RU("R", scs)], bg=["pass"])
     if shape == "s+rbg":
         return F("F", [S("S0", ["pass"]), RU("R", scs, bg=["pass"])])
     if shape == "outline":
@@ -1036,6 +1042,25 @@ def shape_tree(shape, combo, skip_at=None):
     raise ValueError(shape)
 
 
+def witnesses():
+    one = lambda steps, **kw: F("F", [S("S1", steps, **kw)])     # noqa
+    tiny = [
+        one(["pass"]), one(["fail", "pass"]), one(["undefined"]), one(["undefined", "pass"]),
+        one(["pass", "undefined"]), one(["pass/t"]), one(["pass/d"]), one(["pass/n"]), one(["skip", "pass"]),
+        F("F", [S("S1", ["pass"])], bg=["pass"]),
+        F("F", [RU("R", [S("S1", ["pass"])], bg=["pass"])]),
+        F("F", [RU("R", [S("S1", ["pass"])], bg=["pass"])], bg=["pass"]),
+        F("F", [RU("R", [S("S1", ["pass"])])], bg=["pass"]),
+        F("F", [S("S0", ["pass"]), RU("R", [S("S1", ["pass"])], bg=["pass"])]),
+        F("F", [S("S1", ["pass"], t=["skip"]), S("S2", ["pass"])]),
+        F("F", [O("O1", ["<o>"], [EX("E", ["pass", "fail"])])]),
+    ]
+    for t in tiny:
+        for fmt in ALL4:
+            for o in ([], ["--dry-run"]):
+                yield mk([t], [fmt], o)
+
+
 def _rot(lst, i):
     return lst[i % len(lst)]
 
@@ -1044,6 +1069,29 @@ def cases(tier, rng):
     thorough = tier == "thorough"
     arr = arrangements()
     opts = option_sets()
+    # W. fixed tiny cases, one formatter each, identical in both tiers (smallest witnesses first)
+    for c in witnesses():
+        yield c
+    # D1. systematic small trees, one scenario (smallest cases first)
+    if thorough:
+        alpha = ["pass", "fail", "undefined", "skip", "error", "pending"]
+        one = seqs(alpha, 3)
+        two = seqs(alpha, 2)
+        shapes2 = ("flat", "s+rbg", "fbg+rbg", "outline")
+    else:
+        alpha = ["pass", "fail", "undefined"]
+        one = seqs(alpha, 2)
+        two = seqs(alpha, 2)
+        shapes2 = ("flat", "s+rbg")
+    i = 0
+    for shape in SHAPES:
+        for sq in one:
+            t = shape_tree(shape, [sq])
+            if t is None:
+                continue
+            for dry in ([], ["--dry-run"]):
+                i += 1
+                yield mk([t], _rot(arr, i * 7), dry + [x for x in _rot(opts, i) if x != "--dry-run"])
     # A. catalogue x all 16 option sets, all four formats
     for name, spec in CATALOG:
         for o in opts:
@@ -1074,33 +1122,14 @@ def cases(tier, rng):
     names = [n for n, _ in CATALOG]
     pairs = list(itertools.permutations(names, 2)) if thorough else \
         [(names[i], names[(i * 5 + 3) % len(names)]) for i in range(len(names))]
-    for i, (a, b) in enumerate(pairs):
-        yield mk([CAT[a], CAT[b]], ALL4, _rot(opts, i))
+    for j, (a, b) in enumerate(pairs):
+        yield mk([CAT[a], CAT[b]], ALL4, _rot(opts, j))
     yield mk([s for _, s in CATALOG], ALL4, [])
     yield mk([s for _, s in CATALOG], ALL4, ["--dry-run", "--no-skipped"])
     yield mk([CAT["feature-skipped"]], ALL4, ["--no-skipped"])
     yield mk([CAT["feature-skipped"], CAT["feature-skipped"]], ALL4, ["--no-skipped"])
     yield mk([CAT["feature-skipped"], CAT["one-pass"], CAT["feature-skipped"]], ALL4, ["--no-skipped"])
-    # D. systematic small trees
-    if thorough:
-        alpha = ["pass", "fail", "undefined", "skip", "error", "pending"]
-        one = seqs(alpha, 3)
-        two = seqs(alpha, 2)
-        shapes2 = ("flat", "s+rbg", "fbg+rbg", "outline")
-    else:
-        alpha = ["pass", "fail", "undefined"]
-        one = seqs(alpha, 2)
-        two = seqs(alpha, 2)
-        shapes2 = ("flat", "s+rbg")
-    i = 0
-    for shape in SHAPES:
-        for sq in one:
-            t = shape_tree(shape, [sq])
-            if t is None:
-                continue
-            for dry in ([], ["--dry-run"]):
-                i += 1
-                yield mk([t], _rot(arr, i * 7), dry + [x for x in _rot(opts, i) if x != "--dry-run"])
+    # D2. systematic small trees, two scenarios
     for shape in shapes2:
         for c in itertools.product(two, repeat=2):
             for skip_at in ((None, 0, 1) if thorough else (None,)):
@@ -1202,17 +1231,18 @@ def _runner(contract, formats=None, limit=None):
     return run, replay
 
 
-SPACE_Q = ("real runs: 16 catalogue trees (backgrounds at feature and rule level, outlines with two Examples, "
+SPACE_Q = ("real runs: 16 tiny trees x each of the four formatters alone x {normal, dry-run}; 16 catalogue trees (backgrounds at feature and rule level, outlines with two Examples, "
            "tag-deselected scenarios/rules/features, failing/erroring/pending/undefined/self-skipping steps, "
            "tables, doc-strings, unicode names, typed argument) x all 16 combinations of "
            "{--dry-run, --no-skipped, --no-multiline, --no-timings} with json+plain+progress2+progress3; "
            "all 64 ordered non-empty subsets of the four formatters x {normal, dry-run} on one tree; "
-           "pretty/json.pretty/plain0/progress/null/tags alongside; last formatter on stdout; 16 two-feature runs "
-           "and two all-catalogue runs; exhaustive small trees: 7 shapes x all step-outcome sequences over "
+           "pretty/json.pretty/progress/null/tags alongside and duplicated json/plain; last formatter on stdout; 16 two-feature runs "
+           "and two all-catalogue runs; exhaustive small trees: 8 shapes x all step-outcome sequences over "
            "{pass, fail, undefined} of length <= 2 (1 scenario), 2 shapes x all pairs of such sequences, "
            "x {normal, dry-run}, formatter arrangement and the other options rotating; 36 @skip variants")
-SPACE_T = ("as quick, plus: formatter arrangements on two trees; all 240 ordered pairs of catalogue trees; "
-           "exhaustive small trees over {pass, fail, undefined, skip, error, pending}: 7 shapes x sequences of "
+SPACE_T = ("the families of quick (tiny trees, catalogue x 16 option sets, arrangements, other formatters alongside, "
+           "stdout, all-catalogue runs) with: formatter arrangements on two trees; all 240 ordered pairs of catalogue trees; "
+           "exhaustive small trees over {pass, fail, undefined, skip, error, pending}: 8 shapes x sequences of "
            "length <= 3 (1 scenario), 4 shapes x all pairs of sequences of length <= 2 x {no @skip, first, "
            "second scenario @skip}, x {normal, dry-run}; 4000 random cases (seeded rng: 1-3 random features with "
            "rules, backgrounds, outlines, tables/doc-strings, random arrangement and options)")
@@ -1227,7 +1257,7 @@ run_json, replay_json = _runner("json", ("json", "json.pretty"))
 run_rbs, replay_rbs = _runner("rb_structure", ("json", "json.pretty"))
 run_rbst, replay_rbst = _runner("rb_status", ("json", "json.pretty"))
 run_rbl, replay_rbl = _runner("rb_location", ("json", "json.pretty"), limit={"quick": 40, "thorough": 300})
-run_plain, replay_plain = _runner("plain", ("plain", "plain0"))
+run_plain, replay_plain = _runner("plain", ("plain",))
 run_progress, replay_progress = _runner("progress", ("progress2", "progress3"))
 
 
@@ -1402,13 +1432,13 @@ CHECKS = [
         run=run_parse_file, replay=replay_parse_file,
         contract="behave.json_parser.parse(<file written by -f json -o file>) returns the reported features"),
     BoundedCheck(
-        "plain-steps", bound=_bound(" (cases with a plain/plain0 formatter)", " (cases with plain)"),
+        "plain-steps", bound=_bound(" (cases with a plain formatter)", " (cases with plain)"),
         run=run_plain, replay=replay_plain,
         contract="plain output parsed into `Feature:` lines, `Scenario[ Outline]:` blocks and step lines "
                  "`<kw> <name> ... <status>[ in N.NNNs]`: features == shown features; blocks == shown scenarios in "
                  "order; the step lines of a block == its processed steps in order, each exactly once, with keyword, "
                  "name, final status, timing suffix iff show_timings; doc-string delimiter lines and table lines "
-                 "counted == those of the processed steps iff show_multiline (plain0: none)"),
+                 "counted == those of the processed steps iff show_multiline"),
     BoundedCheck(
         "progress-dots", bound=_bound(" (cases with progress2/progress3)", " (cases with progress2/progress3)"),
         run=run_progress, replay=replay_progress,
